@@ -129,6 +129,10 @@ func (c *Ctx) c07Effect() error {
 }
 
 func runC07(c *Ctx) error {
+	// handwritten programs (shapes that once slipped through), run by the Go toolchain
+	if err := c.runCorpus("C07-programs"); err != nil {
+		return err
+	}
 	c.Rep.Rule = "every distinct string literal of /repo/*_test.go that compiles (lenient mode: REPL-style inputs may leave values), a regression corpus and generated programs (strict mode: Go statements only), each compiled by the real compiler with the optimizer on and off and verified by the Lean checker; effect: one instruction per opcode on the real VM; distinct = distinct (source, mode); non-trivial = the code contains a jump or a call"
 	repo := os.Getenv("VERIF_REPO")
 	if repo == "" {
